@@ -22,6 +22,9 @@ K("awkward_IndexedArray_index_of_nulls",
   extents={"starts": "ghost_nstarts"},
   ghost={"ghost_nstarts": ([], None)},
   requires=["ghost_nstarts >= 0", "forall(q, 0, lenindex, 0 <= parents[q] < ghost_nstarts)"],
+  # C06 (missing values sort last, positions inside their own list): every missing entry is reported once, in order,
+  # by its position relative to the start of its list
+  store_asserts={"toindex": ["fromindex[i] < 0", "value == i - starts[parents[i]]"]},
   notes="starts has as many entries as there are parents values; no length parameter exists",
   serves=["C03", "C12", "C13"])
 
